@@ -315,6 +315,25 @@ func runC12(c *Ctx) {
 					}
 				}
 			}
+			// the address of the shared variable handed to a function by a goroutine: that function must not write through it
+			for _, g := range gor {
+				for _, call := range core.Calls(g) {
+					for ai, a := range call.Common().Args {
+						fv, ok := a.(*ssa.FreeVar)
+						if !ok || freeVarBinding(r.Do, g, fv.Name()) != v {
+							continue
+						}
+						h := core.StaticFn(call)
+						if h == nil || h.Blocks == nil || ai >= len(h.Params) {
+							continue
+						}
+						if st := writesThrough(h, h.Params[ai], 0); st != nil && !bad {
+							bad = true
+							c.R.Bad(rule, key, cfg, p.Pos(st.Pos()), "the address of a plain variable shared by the goroutines of Do is passed to "+core.FuncName(h)+", which writes through it ("+core.FuncName(g)+" runs concurrently with the goroutines that read the variable)")
+						}
+					}
+				}
+			}
 			// stores in Do must precede the first Go
 			if al, ok := v.(*ssa.Alloc); ok {
 				for _, ref := range *al.Referrers() {
@@ -608,6 +627,86 @@ func runC12(c *Ctx) {
 		c.R.Floor(rule, cfg, n, 40)
 	}()
 
+	// ---- C12.spawn
+	rule = "C12.spawn"
+	c.R.Rule(rule, "every `go` statement of packages ch and chpool that starts a closure: a variable of the enclosing function that the closure writes (captured by reference) is of a synchronisation type, unless the statement is outside any loop and the enclosing function does not touch the variable after it - several instances of the goroutine, or the goroutine and its parent, otherwise write a plain variable concurrently")
+	func() {
+		n := 0
+		for _, fn := range p.Funcs() {
+			if pkgOf(fn) == nil || (pkgOf(fn).Path() != core.PkgCh && pkgOf(fn).Path() != core.PkgPool) {
+				continue
+			}
+			for _, b := range fn.Blocks {
+				for _, in := range b.Instrs {
+					gi, ok := in.(*ssa.Go)
+					if !ok {
+						continue
+					}
+					mc, ok := gi.Call.Value.(*ssa.MakeClosure)
+					if !ok {
+						continue
+					}
+					cl := mc.Fn.(*ssa.Function)
+					n++
+					key := core.FuncName(cl)
+					bad := false
+					for fi, fv := range cl.FreeVars {
+						bind := mc.Bindings[fi]
+						al, isAlloc := bind.(*ssa.Alloc)
+						if !isAlloc {
+							continue
+						}
+						t := al.Type().(*types.Pointer).Elem()
+						if isSyncType(t) {
+							continue
+						}
+						// does the closure (or a nested one) write it?
+						var wr ssa.Instruction
+						for _, cb := range cl.Blocks {
+							for _, ci := range cb.Instrs {
+								if st, ok := ci.(*ssa.Store); ok {
+									root := st.Addr
+									for {
+										if fa, ok := root.(*ssa.FieldAddr); ok {
+											root = fa.X
+											continue
+										}
+										break
+									}
+									if root == ssa.Value(fv) {
+										wr = st
+									}
+								}
+							}
+						}
+						if wr == nil {
+							continue
+						}
+						multi := core.InLoop(gi)
+						touched := false
+						for _, ref := range *al.Referrers() {
+							ri, ok := ref.(ssa.Instruction)
+							if !ok || ri == ssa.Instruction(mc) {
+								continue
+							}
+							if w := core.ReachAvoiding(core.PointOf(gi), func(x ssa.Instruction) bool { return x == ri }, nil, nil); len(w) > 0 {
+								touched = true
+							}
+						}
+						if multi || touched {
+							bad = true
+							c.R.Bad(rule, key, cfg, p.Pos(wr.Pos()), "the goroutine writes the plain variable "+al.Comment+" of its enclosing function, which is also accessed "+map[bool]string{true: "by the other instances started in the same loop", false: "by the enclosing function after the go statement"}[multi]+": unsynchronised concurrent access")
+						}
+					}
+					if !bad {
+						c.R.Ok(rule, key, cfg, p.Pos(gi.Pos()), "no plain captured variable written concurrently")
+					}
+				}
+			}
+		}
+		c.R.Count("go statements with closures in ch+chpool", n)
+	}()
+
 	ruleSlab(c, p, "C12.slab")
 
 	// ---- C12.globals
@@ -682,4 +781,43 @@ func runC12(c *Ctx) {
 		"no pointer analysis is available (go/pointer is absent from x/tools v0.29.0): effects are attributed through access paths rooted at the Client, the Pool, the context-value struct and the captured variables of Do",
 		"decided: single-owner discipline of the client's I/O objects, lock discipline of the closed flag, shared captured variables, context-shared structs, pool fields; not decided: freedom from all races including through aliased caller memory and third-party code")
 	_ = token.ADD
+}
+
+// writesThrough finds a store whose address is reached from pointer parameter pr of h
+// (field selection, or the pointer handed on to a callee that stores), or nil.
+func writesThrough(h *ssa.Function, pr *ssa.Parameter, d int) ssa.Instruction {
+	if d > 2 {
+		return nil
+	}
+	for _, b := range h.Blocks {
+		for _, in := range b.Instrs {
+			switch x := in.(type) {
+			case *ssa.Store:
+				root := x.Addr
+				for {
+					if fa, ok := root.(*ssa.FieldAddr); ok {
+						root = fa.X
+						continue
+					}
+					break
+				}
+				if root == ssa.Value(pr) {
+					return x
+				}
+			case ssa.CallInstruction:
+				g := core.StaticFn(x)
+				if g == nil || g.Blocks == nil {
+					continue
+				}
+				for i, a := range x.Common().Args {
+					if a == ssa.Value(pr) && i < len(g.Params) {
+						if st := writesThrough(g, g.Params[i], d+1); st != nil {
+							return st
+						}
+					}
+				}
+			}
+		}
+	}
+	return nil
 }
